@@ -22,8 +22,10 @@
 EXTENDS TLC, Json, FiniteSets, Sequences, Naturals
 
 CONSTANTS BlockLists, AllowLists,
-          AsIsC,        \* FALSE: the statement; TRUE: follow today's code (negative config)
-          Configs,      \* set of [enabled, src]
+          AsIsC,        \* FALSE: the statement = the code; TRUE: negative control, follow the
+                        \* pre-fix early return (must violate FailureIsNoOp)
+          CosmC,        \* the parser policy: "#"-lines that are not plain comments are rules
+          Configs,      \* set of [enabled, src, cosm]
           ForcedBeh,    \* behaviours of an http list in a forced refresh
           SchedBeh,     \* ... in a scheduled refresh
           FileBeh       \* behaviours of a local-path list
@@ -52,11 +54,15 @@ TH2  == <<"HASH", "LF", "LF", "SP", "HTML", "LF", "R2", "LF">>     \* ... after 
 TB   == <<"R2", "BIN", "LF">>                                      \* binary from the first byte
 TB2  == <<"R1", "LF", "R2", "LF", "R1", "BIN", "R2", "LF", "R2", "LF">>   \* ... after two good rules
 TCUT == <<"R2", "LF", "HASH", "LF", "R1", "LF">>                   \* the body that gets cut
+\* A title line, then a "#"-line that is not a plain comment, then a rule:
+\* parsed in the mode after the title; its stored form is re-read without one.
+TT   == <<"TITLE", "LF", "COSM", "LF", "R1", "LF">>
+TT2  == <<"COSM", "LF", "R2", "LF", "TITLE", "LF", "COSM", "LF">>      \* ... on both sides of the title
 
 B(k, t, at, arg) == [k |-> k, t |-> t, at |-> at, arg |-> arg]
 OkB(t) == B("ok", t, 0, "")
 
-OkTexts == {T0, TC, T1, T1b, T1c, T2, T12, T21, T11, TCUT, TH, TH2, TB, TB2}
+OkTexts == {T0, TC, T1, T1b, T1c, T2, T12, T21, T11, TCUT, TH, TH2, TB, TB2, TT, TT2}
 
 BehFull ==
     {OkB(t) : t \in OkTexts}
@@ -69,13 +75,13 @@ BehFull ==
           B("cutAtLineBoundary", TCUT, 2, "chunked"), B("cutAtLineBoundary", TCUT, 6, "chunked")}
 
 BehSched ==
-    {OkB(t) : t \in {TC, T1, T1b, T2, T12, TH2, TB2}}
+    {OkB(t) : t \in {TC, T1, T1b, T2, T12, TH2, TB2, TT}}
     \cup {B("connError", <<>>, 0, ""), B("status", T2, 0, "404"),
           B("cutMidLine", TCUT, 4, "cl"), B("cutAtLineBoundary", TCUT, 4, "cl"),
           B("cutAtLineBoundary", TCUT, 6, "chunked")}
 
 BehFile ==
-    {OkB(t) : t \in {T0, T1, T1b, T2, T21, TH2, TB2}}
+    {OkB(t) : t \in {T0, T1, T1b, T2, T21, TH2, TB2, TT}}
     \cup {B("missingLocal", <<>>, 0, ""), B("dirLocal", <<>>, 0, "")}
 
 \* A tiny set for the three-list configuration.
@@ -84,29 +90,29 @@ BehTiny == {OkB(T1), OkB(T2), B("connError", <<>>, 0, ""), B("cutMidLine", TCUT,
 \* Configurations.
 AllOn     == [l \in Lists |-> TRUE]
 AllHTTP   == [l \in Lists |-> "http"]
-ConfHTTP  == {[enabled |-> AllOn, src |-> AllHTTP]}
+ConfHTTP  == {[enabled |-> AllOn, src |-> AllHTTP, cosm |-> CosmC]}
 ConfMixed == ConfHTTP
-    \cup {[enabled |-> AllOn, src |-> [AllHTTP EXCEPT ![l] = "file"]] : l \in Lists}
-    \cup {[enabled |-> [AllOn EXCEPT ![l] = FALSE], src |-> AllHTTP] : l \in Lists}
+    \cup {[enabled |-> AllOn, src |-> [AllHTTP EXCEPT ![l] = "file"], cosm |-> CosmC] : l \in Lists}
+    \cup {[enabled |-> [AllOn EXCEPT ![l] = FALSE], src |-> AllHTTP, cosm |-> CosmC] : l \in Lists}
 
 ASSUME \A b \in BehFull \cup BehSched \cup BehFile \cup BehTiny : WellFormed(b)
 \* In this universe every behaviour has exactly one outcome, so that every
 \* emitted edge has exactly one destination (the soft parser cases are
 \* covered by RuleList.tla and by trace validation).
-ASSUME \A b \in BehFull \cup BehSched \cup BehFile \cup BehTiny : Cardinality(Outcomes(b)) = 1
+ASSUME \A b \in BehFull \cup BehSched \cup BehFile \cup BehTiny, c \in BOOLEAN :
+           Cardinality(Outcomes([cosm |-> c], b)) = 1
 
 ------------------------------------------------------------------------------
 Behs(l, mode) ==
     IF cfg.src[l] = "file" THEN FileBeh
     ELSE IF mode = "forced" THEN ForcedBeh ELSE SchedBeh
 
-\* asis: the state today's code is known to reach instead of dst, or dst.
-Emit(c, src, act, script, dst, rew, failed, asis) ==
+Emit(c, src, act, script, dst, rew, failed) ==
     PrintT(<<"@@V", ToJson([cfg |-> c, src |-> src, act |-> act, script |-> script,
-                            dst |-> dst, rew |-> rew, failed |-> failed, asis |-> asis])>>)
+                            dst |-> dst, rew |-> rew, failed |-> failed])>>)
 
 Init == /\ phase = "boot"
-        /\ cfg = [enabled |-> [l \in Lists |-> TRUE], src |-> [l \in Lists |-> "http"]]
+        /\ cfg = [enabled |-> [l \in Lists |-> TRUE], src |-> [l \in Lists |-> "http"], cosm |-> CosmC]
         /\ S = S0
 
 Boot == /\ phase = "boot"
@@ -114,13 +120,13 @@ Boot == /\ phase = "boot"
              /\ cfg' = c
              /\ S' = S0
              /\ phase' = "run"
-             /\ Emit(c, S0, [a |-> "boot"], <<>>, S0, {}, {}, S0)
+             /\ Emit(c, S0, [a |-> "boot"], <<>>, S0, {}, {})
 
 \* The statement, asserted on EVERY generated transition (an invariant over a
 \* history variable would multiply the state space by the number of scripts).
 StepProps(sel, script, post, rew) ==
-    /\ Assert(FailureIsNoOp(S, sel, script, post, rew), "FailureIsNoOp")
-    /\ Assert(UnchangedChecksumNotRewritten(S, sel, script, post, rew), "UnchangedChecksumNotRewritten")
+    /\ Assert(FailureIsNoOp(cfg, S, sel, script, post, rew), "FailureIsNoOp")
+    /\ Assert(UnchangedChecksumNotRewritten(cfg, S, sel, script, post, rew), "UnchangedChecksumNotRewritten")
     /\ Assert(SuccessStoresNormalForm(cfg, S, sel, script, post, rew) \/ AsIsC, "SuccessStoresNormalForm")
 
 Refresh(act) ==
@@ -130,7 +136,7 @@ Refresh(act) ==
                           \A l \in sel : s[l] \in Behs(l, act.mode)} :
        \E r \in Results(cfg, S, act, script) :
            /\ S' = (IF AsIsC THEN r.asis ELSE r.st)
-           /\ Emit(cfg, S, act, script, S', r.rew, r.failed, r.asis)
+           /\ Emit(cfg, S, act, script, S', r.rew, r.failed)
            /\ StepProps(sel, script, S', r.rew)   \* after Emit: a violating edge is the last one emitted
     /\ UNCHANGED <<phase, cfg>>
 
@@ -144,7 +150,7 @@ Restart == /\ phase = "run"
            \* A restart re-parses the stored files: nothing may change (this is
            \* where NormalFormIsFixedPoint matters to the running system).
            /\ Assert(AsIsC \/ S' = S, "RestartChangesNothing")
-           /\ Emit(cfg, S, [a |-> "restart"], <<>>, S', {}, {}, S')
+           /\ Emit(cfg, S, [a |-> "restart"], <<>>, S', {}, {})
            /\ UNCHANGED <<phase, cfg>>
 
 Next == Boot \/ Forced \/ Sched \/ Restart
